@@ -64,6 +64,7 @@ SECTION17 = ["------------------------------------------------------------------
  "* *history inside one process or object*: a thread-local log-factorial table that is regrown wrongly (C11-D), a cached total that survives `IndexMut` (C14-D), a BCF scratch vector that keeps stale alleles after a narrower record (C08-D) → cohort streams with rising and falling totals in C11, the in-place edit history `monoip` in C14, all-haploid / all-triploid records after diploid ones in C08;",
  "* *environment*: a samples file that must be a regular file (C09-D), `BrokenPipe` mapped to success (C18-F), stdin delivered in pieces (C07-D) → named-pipe samples files, seven rotating error kinds plus closed-pipe runs, split-stdin readers;",
  "* *format corners*: GT's BCF dictionary index ≥ 128 (C12-D), two-digit allele indices in text VCF (C06-D), inputs already on frequency scale (C13-F) → wide headers (126 / 197 / 266 INFO definitions), two-digit multiallelic spellings, frequency-scale inputs.", "",
+ "Generalising from the misses rather than patching them one by one, three generic devices were added afterwards: (1) *call histories on one object* — `hist.scs` (a spectrum: sum, any statistic, cell writes through `IndexMut` and through `inner_mut`, `normalize`, clone, fold / marginalize / project returned or replacing the object) and `hist.arr` (an array with 1-6 axes: get, set, axis views and iterators driven past exhaustion, index iterators, axis sums, replacement by an axis sum): after every call the answer must be what the pure model functions return on the object's *current* contents, which is what any cache, memo or lazily updated field can get wrong; they run under C03, C04, C05, C14 and C19; (2) *size sweeps* — every size in a range once instead of a sample (projection sources 1..260, cohorts 1..140, 1-axis statistics 3..260, folds up to 300, one long axis up to 130, npy value counts 1..70 and 2^k ± 1), thorough tiers two to three times further; (3) *format corners in every call set* — long reference alleles, wide headers, two-digit alleles, repeated positions, names with blanks.", "",
  "A development pitfall found on the way (not part of any registered command): trying a seeded change on a scratch copy of the repository while sharing cargo's target directory with /repo leaves the *patched* `sfs` binary in place when switching back — cargo does not re-link an up-to-date binary — so a following run on the unchanged tree reported the previous seed's violation. Scratch sweeps now build into their own target directories and never write evidence (`SFS_REPO`, `lib/runner.py`).", "",
  "`tools/sweep_seeds.sh` re-applies all 88 stored changes to a scratch copy of the repository and runs the owning property's quick check; it is a development tool (run through `vp run --with-repo`), not a registered check.", ""]
 
